@@ -1158,6 +1158,11 @@ impl<'a, S: Source + 'a> Constructed<'a, S> {
                 // likes it. Check that there is enough limit left for the
                 // value. If so, push the limit at the end of the value to
                 // the stack, update the limit to our length, and continue.
+                if self.mode == Mode::Cer {
+                    return Err(self.content_err(
+                        "definite length constructed in CER mode"
+                    ))
+                }
                 if let Err(err) = op(tag, constructed, stack.len()) {
                     return Err(self.content_err(err));
                 }
